@@ -13,6 +13,7 @@ type GenCfg struct {
 	TopStmts           int     // statements per script body
 	ExprMax            int     // max leaves of a compound condition
 	CompoundP          int     // 1-in-N conditions are compound (0 = never)
+	CondGoto           bool    // hand-written goto_if_set / goto_if_unset commands among the gotos
 	Auto               AutoCfg // AutoVar commands that may be used as leaves / switch operands
 	AutoP              int     // 1-in-N leaves are AutoVar leaves (0 = never)
 	NoLabels           bool
@@ -288,6 +289,11 @@ func (g *genCtx) block(depth int, inLoop, inBrk bool, maxStmts int, braceEnd boo
 				b.Stmts = append(b.Stmts, sCmd(g.cmd()))
 			} else {
 				gt := &Cmd{Name: "goto", Args: plainArgs(fmt.Sprint(rapid.IntRange(0, 6).Draw(t, "gototarget")))}
+				if g.cfg.CondGoto && rapid.IntRange(0, 3).Draw(t, "condgoto") == 0 {
+					// a conditional jump written by hand (execution goes on after it when the flag says so)
+					gt.Name = rapid.SampledFrom([]string{"goto_if_set", "goto_if_unset"}).Draw(t, "condgotoname")
+					gt.Args = append(plainArgs(fmt.Sprintf("FLAG_%d", rapid.IntRange(0, 3).Draw(t, "condgotoflag"))), gt.Args...)
+				}
 				g.gotos = append(g.gotos, gt)
 				b.Stmts = append(b.Stmts, sCmd(gt))
 			}
@@ -353,11 +359,15 @@ func GenScripts(t *rapid.T, cfg GenCfg, nScripts int) *File {
 func resolveGotos(gotos []*Cmd, labels []string) {
 	for _, gt := range gotos {
 		var idx int
-		fmt.Sscan(gt.Args[0].Toks[0], &idx)
+		a := gt.Args[0] // the target: goto L / goto_if_set FLAG, L (later arguments may have been added by decorate)
+		if gt.Name != "goto" {
+			a = gt.Args[1]
+		}
+		fmt.Sscan(a.Toks[0], &idx)
 		if idx < 6 && len(labels) > 0 {
-			gt.Args[0].Toks[0] = labels[idx%len(labels)]
+			a.Toks[0] = labels[idx%len(labels)]
 		} else {
-			gt.Args[0].Toks[0] = "External_Label"
+			a.Toks[0] = "External_Label"
 		}
 	}
 }
